@@ -32,6 +32,7 @@ RULE = dict(RULE_OF_CLASS, GrammarError="syntax", LexerError="lex", InvalidEscap
             MessageInEnumUnsupported="message-in-enum")
 # rules raised by the lexer or the grammar: when they are reported relative to a semantic error of a NEIGHBOURING statement
 # depends on the automaton's lookahead (`uint65` is a lexical error: the type token validates its width)
+WORK_ROOT: List = [None]  # the run's scratch directory (workers killed by an early stop leave nothing behind)
 SYNTACTIC = {"syntax", "lex", "invalid-escape", "os-error", "proto-name-undefined", "invalid-int-width", "invalid-uint-width"}
 
 
@@ -39,7 +40,7 @@ def work(job: Tuple[int, Dict[str, bytes], str]) -> Tuple[int, Tuple]:
     from bitproto.errors import CalculationExpressionError, ParserError
 
     jid, files, main = job
-    d = tempfile.mkdtemp(prefix="bpv-text-")
+    d = tempfile.mkdtemp(prefix="bpv-text-", dir=WORK_ROOT[0])
     try:
         for n, data in files.items():
             with open(os.path.join(d, os.path.basename(n)), "wb") as f:
@@ -142,8 +143,13 @@ def check_text(run: common.Run, drv: common.Driver, rng: random.Random, tier: st
             continue
         reqs.append({"op": "text.check", "files": fj, "main": main})
         keep.append(i)
-    with mp.get_context("fork").Pool(min(14, os.cpu_count() or 4)) as pool:
-        reals = dict(pool.imap_unordered(work, [(i, jobs[i][1], jobs[i][2]) for i in keep], chunksize=16))
+    with R.Scratch(prefix="bpv-text-") as wsc:
+        WORK_ROOT[0] = wsc.dir
+        try:
+            with mp.get_context("fork").Pool(min(14, os.cpu_count() or 4)) as pool:
+                reals = dict(pool.imap_unordered(work, [(i, jobs[i][1], jobs[i][2]) for i in keep], chunksize=16))
+        finally:
+            WORK_ROOT[0] = None
     answers = []
     for k in range(0, len(reqs), 400):
         answers += drv.batch(reqs[k:k + 400])
